@@ -38,6 +38,9 @@ type knowledge struct {
 	prio      int64
 	clearedAt time.Time
 	seen      bool
+	// a lock answer older than what the dispatcher had already been told arrived late
+	staleLockAnswerAt time.Time
+	staleLockAnswerV  int
 }
 
 type incarnation struct {
@@ -88,15 +91,23 @@ type passRec struct {
 }
 
 // wire: an API answer has been delivered to task (root goroutine, at the recv grant).
-func (inc *incarnation) wire(task string, ns []news) {
+func (inc *incarnation) wire(task string, ns []news, src string) {
 	for _, n := range ns {
 		k := inc.know[n.uuid]
+		if n.good() && k != nil && n.ver < k.ver && strings.HasSuffix(src, "/lock") {
+			k.staleLockAnswerAt, k.staleLockAnswerV = time.Now(), n.ver
+			inc.s.w.Probe("lock-answer-delivered-after-newer-news")
+			inc.s.logf("dispatcher %d receives the answer of an old lock call for %s (v%d) after it was told v%d %s", inc.n, shortUUID(n.uuid), n.ver, k.ver, k.state)
+		}
 		if n.good() {
 			if k == nil {
 				k = &knowledge{}
 				inc.know[n.uuid] = k
 			}
 			if n.ver >= k.ver {
+				if !k.good {
+					inc.s.logf("dispatcher %d is told it holds the lock of %s (v%d, priority %d)", inc.n, shortUUID(n.uuid), n.ver, n.prio)
+				}
 				k.ver, k.good, k.state, k.prio, k.seen = n.ver, true, n.state, n.prio, true
 			}
 			continue
@@ -122,6 +133,7 @@ func (inc *incarnation) commit(task string) {
 		if n.ver >= k.ver {
 			if k.good {
 				k.clearedAt = now
+				inc.s.logf("dispatcher %d is told %s is %s priority %d (v%d): lock knowledge cleared", inc.n, shortUUID(n.uuid), n.state, n.prio, n.ver)
 			}
 			k.ver, k.good, k.state, k.prio, k.seen = n.ver, false, n.state, n.prio, true
 		}
@@ -213,10 +225,19 @@ type queueProxy struct {
 	q   *container.Queue
 }
 
-func (p *queueProxy) commit() {
+// commit is called when a queue method returns. A method that failed has applied nothing
+// (a poll whose last page failed discards the pages it did receive): its bad news does not count.
+func (p *queueProxy) commit(err error) {
 	inc := p.inc
 	task := curTask()
-	inc.s.w.Park("oracle-commit", "", nil, func() any { inc.commit(task); return nil })
+	inc.s.w.Park("oracle-commit", "", nil, func() any {
+		if err != nil {
+			delete(inc.pending, task)
+		} else {
+			inc.commit(task)
+		}
+		return nil
+	})
 }
 
 func (p *queueProxy) Entries() (map[string]container.QueueEnt, time.Time) {
@@ -238,7 +259,7 @@ func (p *queueProxy) Entries() (map[string]container.QueueEnt, time.Time) {
 
 func (p *queueProxy) Lock(uuid string) error {
 	err := p.q.Lock(uuid)
-	p.commit()
+	p.commit(err)
 	return err
 }
 
@@ -260,19 +281,19 @@ func (p *queueProxy) Unlock(uuid string) error {
 		}
 	}
 	err := p.q.Unlock(uuid)
-	p.commit()
+	p.commit(err)
 	return err
 }
 
 func (p *queueProxy) Cancel(uuid string) error {
 	err := p.q.Cancel(uuid)
-	p.commit()
+	p.commit(err)
 	return err
 }
 
 func (p *queueProxy) Update() error {
 	err := p.q.Update()
-	p.commit()
+	p.commit(err)
 	return err
 }
 
@@ -379,7 +400,17 @@ func (p *poolProxy) StartContainer(it arvados.InstanceType, ctr arvados.Containe
 			}
 		}
 		ac := s.api.ctrs[uuid]
-		s.viol("C14", "start-without-knowing-lock-held", "",
+		sig := ""
+		if k != nil && !k.staleLockAnswerAt.IsZero() && !k.staleLockAnswerAt.Before(k.clearedAt) && se.state == arvados.ContainerStateLocked {
+			sig = "late-lock-answer-overwrites-newer-unlock-in-queue-cache"
+			told += fmt.Sprintf("; the answer of an older lock call (v%d) was delivered %s after that and the queue cache shows Locked again", k.staleLockAnswerV, k.staleLockAnswerAt.Sub(k.clearedAt).Round(time.Millisecond))
+		}
+		if sig == "" && k != nil && k.seen && se.state == arvados.ContainerStateLocked {
+			// the queue was told otherwise by an answer it received, yet its cache still says Locked
+			// (e.g. Queue.Update skipped the entry because of its dontupdate rule)
+			sig = "queue-cache-still-Locked-after-being-told-otherwise"
+		}
+		s.viol("C14", "start-without-knowing-lock-held", sig,
 			"dispatcher %d started container %s (queue entry of this pass: state=%s priority=%d) but at the API boundary it %s; api history: %s",
 			inc.n, uuid, se.state, se.prio, told, strings.Join(ac.hist, ", "))
 	}
